@@ -2,7 +2,7 @@
 from __future__ import annotations
 
 from .. import gen
-from ..common import q, uncps, cps
+from ..common import q, uncps, cps, rec
 from ..progprop import ProgramProperty, Getter, have, is_exc, init_step, pyval
 
 DOCUMENTED = {"dupKeys", "dupValues", "inconsistent", "cycle"}
@@ -24,25 +24,9 @@ class C11(ProgramProperty):
     def budget(self, tier):
         return 4000 if tier == "quick" else 150000
 
-    def gen(self, rng, tier):
-        recs = gen.records(rng, ":", forbid_delim=False, patterns=True)
+    def build_case(self, recs, rm, uris):
+        """The program for one (converter, remapping): observe the input, remap, observe the result."""
         ps = gen.all_prefixes(recs)
-        unknown = [w for w in ["x", "y", "zzz", "NEW", "c"] + [gen.word(rng, 1, 2)] if w not in ps]
-        pool = list(dict.fromkeys(ps + unknown))    # a remapping is a dict: keys are distinct
-        n = rng.choice([1, 1, 2, 2, 3, 4])
-        keys = rng.sample(pool, min(n, len(pool)))
-        rm = []
-        kind = rng.random()
-        for i, k in enumerate(keys):
-            if kind < 0.35 and i + 1 < len(keys):
-                v = keys[i + 1]  # chain: this value is the next key
-            elif kind < 0.45 and i == len(keys) - 1 and len(keys) > 1:
-                v = keys[0]  # close a cycle
-            else:
-                v = rng.choice(pool)
-            rm.append([cps(k), cps(v)])
-        rng.shuffle(rm)
-        uris = gen.uri_probes(rng, recs, 5)
         steps = [init_step(0, recs), q(0, "records"), q(0, "delimiter"), q(0, "get_prefixes", s=True)]
         for u in uris:
             steps.append(q(0, "parse_uri", u))
@@ -63,6 +47,62 @@ class C11(ProgramProperty):
             tags.append("value-already-known")
         if kset - set(ps):
             tags.append("unknown-key")
+        return {"steps": steps, "rm": rm, "uris": uris, "prefixes": ps[:6], "tags": tags or ["plain"],
+                "interesting": bool((kset & vset) or (vset & set(ps)))}
+
+    def exhaustive(self, tier):
+        """Every remapping of 1-2 (thorough: 1-3) pairs over a small universe of names, on a fixed three-record converter:
+        canonical prefixes, synonyms and unknown names as keys and as values - chains, swaps, clashes, hand-overs,
+        duplicate keys / values, all of them."""
+        import itertools
+        import multiprocessing as mp
+
+        recs = [rec("a", "http://a/", ["A"], ["http://a2/"]), rec("b", "http://b/"), rec("c", "http://c/", ["C"])]
+        names = ["a", "A", "b", "c", "C", "x", "y"]
+        uris = ["http://a/1", "http://a2/1", "http://b/1", "http://c/1", "http://z/1"]
+        maxn = 2 if tier == "quick" else 3
+        cases = []
+        for n in range(1, maxn + 1):
+            for keys in itertools.combinations(names, n):
+                for vals in itertools.product(names, repeat=n):
+                    for order in ([0], [0, 1], [1, 0], [0, 1, 2], [2, 1, 0], [1, 2, 0])[: 1 if n == 1 else 6]:
+                        if len(order) != n:
+                            continue
+                        rm = [[cps(keys[i]), cps(vals[i])] for i in order]
+                        cases.append(self.build_case(recs, rm, uris))
+        chunks = [cases[i:i + 100] for i in range(0, len(cases), 100)]
+        bad = []
+        with mp.get_context("fork").Pool(16) as pool:
+            for b in pool.imap_unordered(_scope_worker, chunks):
+                bad.extend(b)
+        return {"n": len(cases), "bad": bad[:20], "complete": True,
+                "scope": f"every remapping of 1..{maxn} pairs (every insertion order) with keys and values drawn from {names} on the "
+                         f"converter a(A) b c(C): {len(cases)} remappings"}
+
+    def gen(self, rng, tier):
+        recs = gen.records(rng, ":", forbid_delim=False, patterns=True)
+        ps = gen.all_prefixes(recs)
+        unknown = [w for w in ["x", "y", "zzz", "NEW", "c"] + [gen.word(rng, 1, 2)] if w not in ps]
+        pool = list(dict.fromkeys(ps + unknown))    # a remapping is a dict: keys are distinct
+        n = rng.choice([1, 1, 2, 2, 3, 4])
+        keys = rng.sample(pool, min(n, len(pool)))
+        rm = []
+        kind = rng.random()
+        for i, k in enumerate(keys):
+            if kind < 0.35 and i + 1 < len(keys):
+                v = keys[i + 1]  # chain: this value is the next key
+            elif kind < 0.45 and i == len(keys) - 1 and len(keys) > 1:
+                v = keys[0]  # close a cycle
+            else:
+                v = rng.choice(pool)
+            rm.append([cps(k), cps(v)])
+        rng.shuffle(rm)
+        uris = gen.uri_probes(rng, recs, 5)
+        case = self.build_case(recs, rm, uris)
+        steps, tags = case["steps"], [t for t in case["tags"] if t != "plain"]
+        ps = gen.all_prefixes(recs)
+        kset = {uncps(k) for k, _ in rm}
+        vset = {uncps(v) for _, v in rm}
         if rng.random() < 0.35:
             rm2 = [[k, cps("second" + uncps(v))] for k, v in rm[:2]]
             steps += gen.live_tail(rng, recs, 0, [1], redo=[{"op": "remap_curie", "dst": 5, "src": 0, "mapping": rm},
@@ -121,3 +161,10 @@ class C11(ProgramProperty):
 
 
 PROPERTY = C11()
+
+
+def _scope_worker(cases):
+    from .. import engine
+
+    res = engine.evaluate_cases(PROPERTY, cases)
+    return [r for r in res if r["diffs"] or r["fails"]][:5]
